@@ -110,6 +110,11 @@ pub fn dispatch(op: &str, a: &[Term]) -> Option<Term> {
         "alg_add" => tqp(&(&alg(&a[0], &a[1]) + &alg(&a[0], &a[2])).expr),
         "alg_sub" => tqp(&(&alg(&a[0], &a[1]) - &alg(&a[0], &a[2])).expr),
         "alg_mul" => tqp(&(&alg(&a[0], &a[1]) * &alg(&a[0], &a[2])).expr),
+        // the by-value operator impls and the derived equality (separate impls in algebraic.rs)
+        "alg_add_owned" => tqp(&(alg(&a[0], &a[1]) + alg(&a[0], &a[2])).expr),
+        "alg_sub_owned" => tqp(&(alg(&a[0], &a[1]) - alg(&a[0], &a[2])).expr),
+        "alg_mul_owned" => tqp(&(alg(&a[0], &a[1]) * alg(&a[0], &a[2])).expr),
+        "alg_eq" => tbool(alg(&a[0], &a[1]) == alg(&a[0], &a[2])),
         "alg_pow" => tqp(&Pow::pow(&alg(&a[0], &a[1]), a[2].int()).expr),
         "alg_pow_u64" => tqp(&Pow::pow(&alg(&a[0], &a[1]), a[2].u64()).expr),
         "alg_theta_pow" => tqp(&Pow::pow(&Algebraic::new(zp(&a[0])), a[1].int()).expr),
